@@ -1089,3 +1089,94 @@ def rule_m(ctx: Ctx) -> None:
                          f"the index is out of range and IndexError leaks")
     ctx.count("cursor_relative_subscripts", n)
     ctx.min_instances("cursor_relative_subscripts", n, 12)
+
+
+# ------------------------------------------------------------------------------------------ C05.n
+# Work bound of the generator: a handler that renders the same child twice does 2^depth work on a chain of that node.
+
+REVIEWED_DOUBLE_RENDER: dict[tuple[str, str], str] = {
+    ("sqlglot.generators.hive:HiveGenerator.altercolumn_sql", "self.sql(expression, 'comment')"):
+        "the comment of ALTER COLUMN is a literal and cannot contain another AlterColumn: the repeated rendering costs a factor 2, not 2^depth",
+}
+
+
+def _exclusive(m: Module, a: ast.AST, b: ast.AST, stop: ast.AST) -> bool:
+    """a and b lie in different arms of one if / conditional expression (they never both run)"""
+    def arms(x: ast.AST) -> dict[int, str]:
+        out: dict[int, str] = {}
+        cur, p = x, m.parent(x)
+        while p is not None and cur is not stop:
+            if isinstance(p, ast.IfExp):
+                if cur is p.body:
+                    out[id(p)] = "body"
+                elif cur is p.orelse:
+                    out[id(p)] = "orelse"
+            elif isinstance(p, ast.If):
+                if any(cur is s_ for s_ in p.body):
+                    out[id(p)] = "body"
+                elif any(cur is s_ for s_ in p.orelse):
+                    out[id(p)] = "orelse"
+            cur, p = p, m.parent(p)
+        return out
+
+    aa, bb = arms(a), arms(b)
+    if any(k in bb and bb[k] != v for k, v in aa.items()):
+        return True
+    # two conditionals on the same plain name (`x if fetch else y`, `y if fetch else x`): opposite arms never both run
+    def by_test(x: ast.AST) -> dict[str, str]:
+        out: dict[str, str] = {}
+        cur, p = x, m.parent(x)
+        while p is not None and cur is not stop:
+            if isinstance(p, ast.IfExp) and isinstance(p.test, ast.Name):
+                out[p.test.id] = "body" if cur is p.body else "orelse" if cur is p.orelse else out.get(p.test.id, "")
+            cur, p = p, m.parent(p)
+        return out
+    ta, tb = by_test(a), by_test(b)
+    return any(k in tb and tb[k] and v and tb[k] != v for k, v in ta.items())
+
+
+def rule_n(ctx: Ctx) -> None:
+    ctx.rule(
+        "C05.n",
+        "generator work bound: no handler renders the same child of its node twice on one execution (two identical self.sql(expression, <key>) calls that are "
+        "not in exclusive branches) — on a chain of such nodes the second rendering doubles the work at every level (2^depth calls for `- - - ... 1`)",
+    )
+    repo = ctx.repo
+    g0 = repo.cls("sqlglot.generator", "Generator")
+    n = n_methods = 0
+    for c in [g0] + repo.subclasses(g0):
+        m = c.module
+        for name, md in c.methods().items():
+            calls: dict[str, list[ast.Call]] = {}
+            for x in walk_no_nested(md, include_lambda=False):
+                if isinstance(x, ast.Call) and call_name(x) == "self.sql" and x.args and isinstance(x.args[0], ast.Name) and md.args.args[1:] and x.args[0].id == md.args.args[1].arg \
+                        and all(isinstance(a_, ast.Constant) for a_ in x.args[1:]) and not x.keywords:
+                    # comprehension bodies run per element of a *different* collection: not the same child twice
+                    p_ = m.parent(x)
+                    in_comp = False
+                    while p_ is not None and p_ is not md:
+                        if isinstance(p_, (ast.ListComp, ast.GeneratorExp, ast.SetComp, ast.DictComp)):
+                            in_comp = True
+                        p_ = m.parent(p_)
+                    if not in_comp:
+                        calls.setdefault(norm(x), []).append(x)
+            if calls:
+                n_methods += 1
+            for txt, sites in calls.items():
+                if len(sites) < 2:
+                    continue
+                pair = next(((a, b) for i, a in enumerate(sites) for b in sites[i + 1:] if not _exclusive(m, a, b, md)), None)
+                if pair is None:
+                    continue
+                n += 1
+                where = f"{c.key}.{name}"
+                inst = f"{where}|{txt}"
+                if (where, txt) in REVIEWED_DOUBLE_RENDER:
+                    ctx.ok(inst, {"handler": where, "child": txt, "reviewed": REVIEWED_DOUBLE_RENDER[(where, txt)]})
+                else:
+                    ctx.fail(m, pair[1], where, txt,
+                             f"`{txt}` is evaluated twice on one execution of {name} (lines {pair[0].lineno} and {pair[1].lineno}): each level of a nested chain of this node "
+                             f"renders its child twice, so generation work grows as 2^depth although the output is unchanged")
+    ctx.ok("generator|no unreviewed double rendering", {"handlers_rendering_children": n_methods, "double_render_candidates": n})
+    ctx.count("handlers_rendering_children", n_methods)
+    ctx.min_instances("handlers_rendering_children", n_methods, 300)
